@@ -104,21 +104,26 @@ def _evaluate(case):
     fails = []
     names = [PASSES[i % len(PASSES)] for i, _ in steps]
     prelude = case.get("prelude") or []
-    if prelude:
-        # history: the same passes first process ANOTHER model (other tape, possibly another opset) in this process;
-        # what they do to the model under test must not depend on it (no state may leak between models)
+    try:
+        shared_ps = [make_pass(i, p) for i, p in steps]
+    except Exception:
+        shared_ps = None
+    if prelude and shared_ps is not None:
+        # history: the SAME pass objects first process another model (other tape, possibly another opset) in this
+        # process; what they do to the model under test must not depend on it (no state may leak between models,
+        # neither through module-level nor through per-instance caches)
         try:
             other, _ = rmodel.build(prelude, case.get("gen", 1))
             om = ir.from_proto(other)
-            for i, p in steps:
-                om = make_pass(i, p)(om).model
+            for q in shared_ps:
+                om = q(om).model
         except Exception:
             pass
     model = ir.from_proto(proto)
     modified_any = False
     classes = []
     try:
-        ps = [make_pass(i, p) for i, p in steps]
+        ps = shared_ps if shared_ps is not None else [make_pass(i, p) for i, p in steps]
         wrap = case.get("wrap", 0) % 4
         if wrap == 0:
             for p in ps:
